@@ -12,7 +12,7 @@ COMMON_ASSUMPTIONS = [
 PROPS = {
     "C01": {
         "harness": "c01",
-        "quick": {"workers": 8, "cases": 1200, "size": 30},
+        "quick": {"workers": 8, "cases": 2000, "size": 30},
         "thorough": {"workers": 16, "cases": 15000, "size": 40},
         "min_nontrivial_frac": 0.25,
         "min_tag_frac": {"verdict:included": 0.15, "verdict:not-included": 0.15},
